@@ -1,0 +1,51 @@
+//go:build verif
+
+// Contracts (third batch) for pkg/document/table.go, read by /verif/engine (govc): the cell-level writers and
+// formatters, the row/table formatters, the readers and the iterators (property C09). Every one of them can be
+// called between two structural edits, so each contract says: no panic for any arguments on a table that satisfies
+// the ownership invariants, failure leaves the heap untouched, success preserves the ownership predicates
+// (rowsOwn, cellPropsOwn, rowPropsOwn, cellParasOwn, paraRunsOwn - the preconditions of the structural editors)
+// and writes only the addressed cell / row / table.
+// Comments only: with or without the build tag this file adds no code to the package.
+package document
+
+// ---------------------------------------------------------------- writers of cell content
+
+//@ func (*Table).SetCellFormattedText
+//@ props C09
+//@ requires t != nil && rowsOwn(t)
+//@ modifies TableCell.Paragraphs
+//@ ensures err == nil <==> (0 <= row && row < len(t.Rows) && 0 <= col && col < len(t.Rows[row].Cells))
+//@ ensures err != nil ==> unchangedHeap()
+//@ ensures err == nil ==> len(t.Rows[row].Cells[col].Paragraphs) == 1 && freshArr(t.Rows[row].Cells[col].Paragraphs) && t.Rows[row].Cells[col].Paragraphs[0].Properties == nil && len(t.Rows[row].Cells[col].Paragraphs[0].Runs) == 1 && freshArr(t.Rows[row].Cells[col].Paragraphs[0].Runs) && t.Rows[row].Cells[col].Paragraphs[0].Runs[0].Text.Content == text
+//@ ensures err == nil && format == nil ==> t.Rows[row].Cells[col].Paragraphs[0].Runs[0].Properties == nil
+//@ ensures err == nil && format != nil ==> fresh(t.Rows[row].Cells[col].Paragraphs[0].Runs[0].Properties) && ((t.Rows[row].Cells[col].Paragraphs[0].Runs[0].Properties.Bold != nil) == format.Bold) && ((t.Rows[row].Cells[col].Paragraphs[0].Runs[0].Properties.Italic != nil) == format.Italic) && ((t.Rows[row].Cells[col].Paragraphs[0].Runs[0].Properties.FontSize != nil) == (format.FontSize > 0)) && ((t.Rows[row].Cells[col].Paragraphs[0].Runs[0].Properties.Color != nil) == (format.FontColor != "")) && ((t.Rows[row].Cells[col].Paragraphs[0].Runs[0].Properties.FontFamily != nil) == (format.FontFamily != ""))
+//@ ensures err == nil && format != nil && format.FontSize > 0 ==> t.Rows[row].Cells[col].Paragraphs[0].Runs[0].Properties.FontSize.Val == itoa(format.FontSize * 2)
+//@ ensures err == nil && format != nil && format.FontColor != "" ==> t.Rows[row].Cells[col].Paragraphs[0].Runs[0].Properties.Color.Val == format.FontColor
+//@ ensures err == nil ==> forall r int, c int :: 0 <= r && r < len(t.Rows) && 0 <= c && c < len(t.Rows[r].Cells) && (r != row || c != col) ==> t.Rows[r].Cells[c].Paragraphs == old(t.Rows[r].Cells[c].Paragraphs)
+//@ ensures err == nil ==> rowsOwn(t)
+//@ ensures err == nil && old(cellPropsOwn(t)) ==> cellPropsOwn(t)
+//@ ensures err == nil && old(rowPropsOwn(t)) ==> rowPropsOwn(t)
+//@ ensures err == nil && old(cellParasOwn(t)) ==> cellParasOwn(t)
+//@ ensures err == nil && old(cellParasOwn(t)) && old(paraRunsOwn(t)) ==> paraRunsOwn(t)
+
+//@ func (*Table).AddCellFormattedParagraph
+//@ props C09
+//@ requires t != nil && rowsOwn(t) && cellParasOwn(t)
+//@ modifies TableCell.Paragraphs, Paragraph.*
+//@ ensures err == nil <==> (0 <= row && row < len(t.Rows) && 0 <= col && col < len(t.Rows[row].Cells))
+//@ ensures err != nil ==> unchangedHeap() && result0 == nil
+//@ ensures err == nil ==> len(t.Rows[row].Cells[col].Paragraphs) == old(len(t.Rows[row].Cells[col].Paragraphs)) + 1
+//@ ensures err == nil ==> result0 == &t.Rows[row].Cells[col].Paragraphs[len(t.Rows[row].Cells[col].Paragraphs) - 1]
+//@ ensures err == nil ==> len(result0.Runs) == 1 && freshArr(result0.Runs) && result0.Runs[0].Text.Content == text && result0.Runs[0].Text.Space == "preserve" && result0.Properties == nil && fresh(result0.Runs[0].Properties)
+//@ ensures err == nil && format == nil ==> result0.Runs[0].Properties.Bold == nil && result0.Runs[0].Properties.Italic == nil && result0.Runs[0].Properties.FontSize == nil && result0.Runs[0].Properties.Color == nil && result0.Runs[0].Properties.FontFamily == nil && result0.Runs[0].Properties.Underline == nil && result0.Runs[0].Properties.Strike == nil && result0.Runs[0].Properties.Highlight == nil
+//@ ensures err == nil && format != nil ==> ((result0.Runs[0].Properties.Bold != nil) == format.Bold) && ((result0.Runs[0].Properties.Italic != nil) == format.Italic) && ((result0.Runs[0].Properties.FontSize != nil) == (format.FontSize > 0)) && ((result0.Runs[0].Properties.Color != nil) == (format.FontColor != "")) && ((result0.Runs[0].Properties.FontFamily != nil) == (format.FontFamily != "")) && ((result0.Runs[0].Properties.Underline != nil) == format.Underline) && ((result0.Runs[0].Properties.Strike != nil) == format.Strike) && ((result0.Runs[0].Properties.Highlight != nil) == (format.Highlight != ""))
+//@ ensures err == nil && format != nil && format.FontSize > 0 ==> result0.Runs[0].Properties.FontSize.Val == itoa(format.FontSize * 2)
+//@ ensures err == nil ==> forall k int :: 0 <= k && k < old(len(t.Rows[row].Cells[col].Paragraphs)) ==> t.Rows[row].Cells[col].Paragraphs[k] == old(t.Rows[row].Cells[col].Paragraphs[k])
+//@ ensures err == nil ==> forall r int, c int :: 0 <= r && r < len(t.Rows) && 0 <= c && c < len(t.Rows[r].Cells) && (r != row || c != col) ==> t.Rows[r].Cells[c].Paragraphs == old(t.Rows[r].Cells[c].Paragraphs)
+//@ ensures err == nil ==> forall r int, c int, k int :: 0 <= r && r < len(t.Rows) && 0 <= c && c < len(t.Rows[r].Cells) && (r != row || c != col) && 0 <= k && k < len(t.Rows[r].Cells[c].Paragraphs) ==> t.Rows[r].Cells[c].Paragraphs[k] == old(t.Rows[r].Cells[c].Paragraphs[k])
+//@ ensures err == nil ==> cellParasOwn(t)
+//@ ensures err == nil ==> rowsOwn(t)
+//@ ensures err == nil && old(cellPropsOwn(t)) ==> cellPropsOwn(t)
+//@ ensures err == nil && old(rowPropsOwn(t)) ==> rowPropsOwn(t)
+//@ ensures err == nil && old(paraRunsOwn(t)) && (forall k int :: 0 <= k && k < old(len(t.Rows[row].Cells[col].Paragraphs)) ==> t.Rows[row].Cells[col].Paragraphs[k] == old(t.Rows[row].Cells[col].Paragraphs[k])) && (forall r int, c int, k int :: 0 <= r && r < len(t.Rows) && 0 <= c && c < len(t.Rows[r].Cells) && (r != row || c != col) && 0 <= k && k < len(t.Rows[r].Cells[c].Paragraphs) ==> t.Rows[r].Cells[c].Paragraphs[k] == old(t.Rows[r].Cells[c].Paragraphs[k])) ==> paraRunsOwn(t)
